@@ -10,6 +10,8 @@ SUDOKU1 = [[0, 0, 0, 0, 3, 0, 0, 0, 0], [2, 8, 9, 0, 0, 0, 0, 0, 0], [0, 0, 5, 7
 KNAP = [[40, 40, 38, 38, 36, 36, 34, 34, 32, 32, 30, 30], [40, 40, 38, 38, 36, 36, 34, 34, 32, 32, 30, 30], 55]
 TSP4 = [[0, 2, 1, 2], [2, 0, 2, 1], [1, 2, 0, 2], [2, 1, 2, 0]]
 TSP5 = [[0, 3, 4, 2, 7], [3, 0, 4, 6, 3], [4, 4, 0, 5, 8], [2, 6, 5, 0, 6], [7, 3, 8, 6, 0]]
+TSP4A = [[0, 9, 1, 8], [2, 0, 7, 1], [9, 1, 0, 3], [1, 6, 2, 0]]                       # asymmetric
+TSP5A = [[0, 2, 9, 9, 1], [8, 0, 3, 9, 7], [9, 6, 0, 1, 2], [4, 9, 7, 0, 5], [3, 1, 8, 6, 0]]
 SB = {"bibd", "golomb", "magic_square", "quasigroup", "quasigroup5", "schur", "sts"}
 CFGS = [{"ca": 0, "vh": 0, "dh": 0}, {"ca": 1, "vh": 0, "dh": 0}, {"ca": 0, "vh": 1, "dh": 1}, {"ca": 0, "vh": 2, "dh": 3},
         {"ca": 0, "vh": 1, "dh": 2}]
@@ -27,7 +29,7 @@ def instances(tier):
     q += [("bibd", [6, 10, 5, 3, 2], "solve"), ("bibd", [7, 7, 3, 3, 1], "solve")]
     q += [("schur", [n], "solve") for n in (3, 5, 7, 9, 13, 14)]
     q += [("knapsack", KNAP, "max"), ("circuit", [2], "solve"), ("circuit", [3], "solve"), ("circuit", [4], "solve"),
-          ("circuit", [5], "solve"), ("circuit", [6], "solve"), ("tsp", [TSP4], "min"), ("tsp", [TSP5], "min"),
+          ("circuit", [5], "solve"), ("circuit", [6], "solve"), ("tsp", [TSP4], "min"), ("tsp", [TSP5], "min"), ("tsp", [TSP4A], "min"), ("tsp", [TSP5A], "min"),
           ("sts", [4], "solve"), ("sts", [6], "solve"), ("sudoku", [SUDOKU1], "solve"), ("donald", [], "solve"), ("alpha", [], "solve")]
     if tier == "thorough":
         q += [("queens", [9], "solve"), ("queens", [10], "solve"), ("magic_square", [4], "solve"), ("golomb", [7], "min"),
